@@ -260,7 +260,9 @@ func resolveObj(m Mach, name string) (objRef, bool) {
 	return objRef{}, false
 }
 
-func (o objRef) isFlag() bool { return len(o.kind) == 2 && (o.kind[1] == 'v' || o.kind[1] == 'r') && o.kind[0] != 'p' }
+func (o objRef) isFlag() bool {
+	return len(o.kind) == 2 && (o.kind[1] == 'v' || o.kind[1] == 'r') && o.kind[0] != 'p'
+}
 
 func u64(v interface{}) uint64 {
 	switch x := v.(type) {
@@ -356,23 +358,23 @@ func snapshot(m Mach, vm *bondmachine.VM) string {
 // result of a simulation run, in a form both the replica and the oracle produce
 
 type tickOut struct {
-	Pre   string   // state after the injections of this tick, before the step ("" on the shutdown tick)
-	Post  string   // state at the end of the iteration
-	Shows []uint64 // decoded values printed on this tick, in print order
+	Pre     string   // state after the injections of this tick, before the step ("" on the shutdown tick)
+	Post    string   // state at the end of the iteration
+	Shows   []uint64 // decoded values printed on this tick, in print order
 	ShowFmt []string // oracle only: display format of each shown value
-	Row   map[string]uint64
-	HasRow bool
+	Row     map[string]uint64
+	HasRow  bool
 	RowTick string // first column when config:get_ticks is active ("" otherwise)
 }
 
 type runOut struct {
-	Err    string // non-empty: the run ended with an error/fatal (class:text)
-	Header []string
-	Ticks  []tickOut
-	Shut   int // iteration at which the run shut down on a valid output (-1: ran out of ticks)
-	Fired  map[string]int // oracle only: how many times rules of an event class fired
-	ColFmt map[string]string // oracle only: display format per report column
-	GetTicks bool // oracle only: config:get_ticks active
+	Err      string // non-empty: the run ended with an error/fatal (class:text)
+	Header   []string
+	Ticks    []tickOut
+	Shut     int               // iteration at which the run shut down on a valid output (-1: ran out of ticks)
+	Fired    map[string]int    // oracle only: how many times rules of an event class fired
+	ColFmt   map[string]string // oracle only: display format per report column
+	GetTicks bool              // oracle only: config:get_ticks active
 	// raw text the real CLI would print (stdout show lines, CSV lines) for the CLI comparison
 	Stdout []string
 	CSV    [][]string
@@ -981,9 +983,10 @@ func predict(m Mach, bm *bondmachine.Bondmachine, rules []mrule, interactions, s
 }
 
 var (
-	reDec = regexp.MustCompile(`^[0-9]+$`)
-	reHex = regexp.MustCompile(`^0x[0-9a-fA-F]+$`)
-	reBin = regexp.MustCompile(`^0b[01]+$`)
+	reDec  = regexp.MustCompile(`^[0-9]+$`)
+	reDecD = regexp.MustCompile(`^0d[0-9]+$`)
+	reHex  = regexp.MustCompile(`^0x[0-9a-fA-F]+$`)
+	reBin  = regexp.MustCompile(`^0b[01]+$`)
 )
 
 // parseSetValue: the literal forms the generator uses for "the stated value".
@@ -991,6 +994,9 @@ func parseSetValue(s string) (uint64, bool) {
 	switch {
 	case reDec.MatchString(s):
 		v, err := strconv.ParseUint(s, 10, 64)
+		return v, err == nil
+	case reDecD.MatchString(s):
+		v, err := strconv.ParseUint(s[2:], 10, 64)
 		return v, err == nil
 	case reHex.MatchString(s):
 		v, err := strconv.ParseUint(s[2:], 16, 64)
